@@ -6,6 +6,7 @@ import PV.Model.Daemon
 import PV.Model.Stats
 import PV.Model.Tokens
 import PV.Model.Version
+import PV.Model.RegAlloc
 import PV.DriverRun
 /-! One-JSON-object-in / one-JSON-object-out driver over the executable models. -/
 namespace PV.Driver
@@ -78,6 +79,30 @@ def handleE (j : Json) : Except String Json := do
     let cs := src.map Char.ofNat
     pure (Json.mkObj [("ok", jNats [PV.Stats.numLines cs, PV.Stats.numBytes cs])])
   | "labels-compare" => do pure (Json.mkObj [("ok", ← PV.DriverRun.labelsCompare j)])
+  | "colors" =>
+    -- {"ivs": [[start, stop], ...]} -> colours in the given order (assign_colors)
+    let ivs ← (← j.getObjVal? "ivs").getArr?
+    let l ← ivs.toList.mapM (fun p => do
+      let a ← p.getArr?
+      pure ((← (a[0]!).getNat?), (← (a[1]!).getNat?)))
+    pure (Json.mkObj [("ok", jNats (PV.RegAlloc.assignColors l))])
+  | "regalloc" =>
+    -- {"scopes": [{"name":…, "callers":[…], "syms":[[virt, start, stop], …]}, …]} -> {"mapping": [[virt, reg]…], "used": […]} | "out-of-registers"
+    let scs ← (← j.getObjVal? "scopes").getArr?
+    let scopes ← scs.toList.mapM (fun sc => do
+      let name ← sc.getObjValAs? String "name"
+      let callers ← (← (← sc.getObjVal? "callers").getArr?).toList.mapM (·.getStr?)
+      let syms ← (← (← sc.getObjVal? "syms").getArr?).toList.mapM (fun y => do
+        let a ← y.getArr?
+        pure ((← (a[0]!).getStr?), ((← (a[1]!).getNat?), (← (a[2]!).getNat?))))
+      pure ({ name := name, callers := callers, syms := syms } : PV.RegAlloc.Scope))
+    match PV.RegAlloc.assignRegisters scopes with
+    | .outOfRegisters => pure (Json.mkObj [("ok", Json.str "out-of-registers")])
+    | .ok st => pure (Json.mkObj [("ok", Json.mkObj [
+        ("mapping", Json.arr (st.mapping.map (fun (v, r) => Json.arr #[Json.str v, Json.num (JsonNumber.fromNat r)])).toArray),
+        ("used", jNats (PV.RegAlloc.usedRegisters st))])])
+  | "check-alloc" => do pure (Json.mkObj [("ok", ← PV.DriverRun.checkAlloc j)])
+  | "run-pair" => do pure (Json.mkObj [("ok", ← PV.DriverRun.runPair j)])
   | "wf" => do pure (Json.mkObj [("ok", ← PV.DriverRun.wf j)])
   | "addversion" =>
     let note ← natsOf (← j.getObjVal? "note")
